@@ -64,10 +64,11 @@ TARGETS = [
     ('write_utf8', '_ST_PRIVATE::conversion_error_t (char *&, char32_t)'),
     ('write_utf16', '_ST_PRIVATE::conversion_error_t (char16_t *&, char32_t)'),
     ('utf8_convert_from_latin_1', 'void (char *, const char *, size_t)'),
+    ('utf16_convert_from_utf32', '_ST_PRIVATE::conversion_error_t (char16_t *, const char32_t *, size_t, ST::utf_validation_t)'),
 ]
 # a pointer parameter that points into the array of another parameter (one past its end): it is passed as an index
 # functions whose first `T *` parameter with a non-const pointee is a write-only cursor (used only as `*p++ = e`)
-PLAIN_CURSOR_FUNCS = ('utf8_convert_from_latin_1',)
+PLAIN_CURSOR_FUNCS = ('utf8_convert_from_latin_1', 'utf16_convert_from_utf32')
 ALIAS_PARAMS = {('extract_utf8', 'end'): 'utf8', ('extract_utf16', 'end'): 'utf16'}
 # a translated function that returns a pointer returns it into the array of this parameter
 RET_BASE_PARAM = 0
@@ -250,8 +251,18 @@ class Translator:
         args, ptrs = [], []
         cparams = [c for c in (self.funcs[(t[0], t[1])][0].get('inner') or []) if isinstance(c, dict) and c.get('kind') == 'ParmVarDecl']
         refs = []
+        outcall = False
         for a, cp in zip(inner[1:], cparams):
             cq = strip_quals((cp.get('type') or {}).get('qualType', ''))
+            if cq.replace(' ', '').endswith('*&') and not (cp.get('type') or {}).get('qualType', '').strip().startswith('const '):
+                # the callee's write-only cursor: must be this function's cursor; the units it stores are appended
+                tgt = a
+                while tgt.get('kind') in ('ParenExpr', 'ImplicitCastExpr') and tgt.get('castKind', 'NoOp') == 'NoOp':
+                    tgt = tgt['inner'][0]
+                if tgt.get('kind') != 'DeclRefExpr' or (tgt.get('referencedDecl') or {}).get('id') != self.out_cursor or self.pending is None:
+                    raise Unsupported('argument for an output cursor that is not this function\'s cursor')
+                outcall = True
+                continue
             if cq.replace(' ', '').endswith('*&'):
                 tgt = a
                 while tgt.get('kind') in ('ParenExpr', 'ImplicitCastExpr') and tgt.get('castKind', 'NoOp') == 'NoOp':
@@ -277,7 +288,15 @@ class Translator:
                 args.append(base if idx == '(0)' else '(fun i_ => %s (%s + i_))' % (base, idx))
             else:
                 args.append(self.expr(a, env))
-        if refs:
+        if outcall:
+            if refs or self.fuelled(t) or self.binds is None or self.shortcircuit or self.is_ptr(n):
+                raise Unsupported('call to a function with an output cursor in this position')
+            r = self.fresh('r_' + coq_name(t))
+            ws = self.fresh('w_' + coq_name(t))
+            self.binds.append((('pair', r, ws), '(src_%s %s)' % (coq_name(t), ' '.join(args))))
+            key = ('out', self.out_cursor)
+            self.pending.append((key, '(%s ++ %s)' % (env[key], ws)))
+        elif refs:
             if len(refs) != 1 or self.fuelled(t) or self.binds is None or self.shortcircuit or self.is_ptr(n):
                 raise Unsupported('call to a function with a T*& parameter in this position')
             r = self.fresh('r_' + coq_name(t))
@@ -333,7 +352,7 @@ class Translator:
             self.pending = None
             self.binds = None
         for vid, _ in pend:
-            if self.count_refs(n, vid) != 1:
+            if not isinstance(vid, tuple) and self.count_refs(n, vid) != 1:
                 raise Unsupported('a variable incremented inside an expression occurs elsewhere in it')
         if pend and not allow_pending:
             raise Unsupported('increment inside an expression in this position')
@@ -345,7 +364,7 @@ class Translator:
         env = dict(env)
         lets = []
         for vid, new in pend:
-            name = self.fresh(self.var_names.get(vid, 'x'))
+            name = self.fresh('out' if isinstance(vid, tuple) else self.var_names.get(vid, 'x'))
             lets.append('let %s := %s in' % (name, new))
             env[vid] = name
         return ' '.join(lets) + (' ' if lets else ''), env
@@ -995,7 +1014,9 @@ Definition z2b (x : Z) : bool := negb (x =? 0).
 EXTRA_CONSTS = {'digit_default': 'ST::digit_default', 'digit_dec': 'ST::digit_dec', 'digit_hex': 'ST::digit_hex',
                 'digit_hex_upper': 'ST::digit_hex_upper', 'digit_oct': 'ST::digit_oct', 'digit_bin': 'ST::digit_bin',
                 'digit_char': 'ST::digit_char', 'numeric_positive': '_ST_PRIVATE::numeric_positive',
-                'numeric_negative': '_ST_PRIVATE::numeric_negative', 'numeric_zero': '_ST_PRIVATE::numeric_zero'}
+                'numeric_negative': '_ST_PRIVATE::numeric_negative', 'numeric_zero': '_ST_PRIVATE::numeric_zero',
+                'check_validity': 'ST::check_validity', 'substitute_invalid': 'ST::substitute_invalid',
+                'assume_valid': 'ST::assume_valid', 'badchar_substitute': '_ST_PRIVATE::badchar_substitute'}
 
 
 def eval_constants(names, inc, cfg, namespaces=('_ST_PRIVATE', 'ST')):
